@@ -7,6 +7,12 @@
 // production when o < d) and a probe (a pure time marker) is recorded p ms after its start — both
 // from goroutines of their own, as the reaper does.
 //
+// Start-up wait of AggregationLoop: `… since=<ms> via=last|genesis sn=<o1+o2|-> sp=<p1+p2|->` — the clock of
+// the scenario starts at the reference instant of the wait (via=last: the time of a REAL block in the
+// store the Manager is re-opened on = a restart right after a block; via=genesis: genesis time, empty
+// store), AggregationLoop is called `since` ms later, NotifyNewTransactions() o ms after that call for
+// every o of sn (token w<j>), probes p ms after it (token q<j>).  Without `since`: no wait, as before.
+//
 // Observation line: `outs=` the ORDER of the first `upto` events the REAL loop went through
 // (production starts with the select case that caused them, production ends, notifications, probes).
 // It is compared with the Lean driver's set of admissible outcomes (all select resolutions, all
@@ -40,6 +46,9 @@ const (
 	sigLateBlockTimer   = "C17/notify/block-timer-production-late"
 	sigOrder            = "C17/model/real-order-outside-admissible-outcomes"
 	sigTiming           = "C17/model/real-loop-outside-admissible-runs"
+	sigEarlyStartNotif  = "C17/rate/first-block-after-start-too-early/notification-during-the-start-up-wait"
+	sigEarlyStartOther  = "C17/rate/first-block-after-start-too-early/other"
+	sigLostStartNotif   = "C17/lost-wakeup/notification-during-the-start-up-wait"
 
 	rateTol  = 10.0 // ms: recorder timestamp vs the loop's own `start := time.Now()`
 	parallel = 8
@@ -55,12 +64,25 @@ const (
 // ---------------------------------------------------------------- generator
 
 func (sc *script) line() string {
-	return fmt.Sprintf("run mode=%s B=%d I=%d span=%d dd=%d tol=%d jit=%d upto=%d script=%s",
+	l := fmt.Sprintf("run mode=%s B=%d I=%d span=%d dd=%d tol=%d jit=%d upto=%d script=%s",
 		sc.mode, sc.B, sc.I, sc.span, sc.dd, sc.tol, sc.jit, sc.upto, showScript(sc.prods))
+	if sc.since >= 0 {
+		l += fmt.Sprintf(" since=%d via=%s sn=%s sp=%s", sc.since, sc.via, showOffs(sc.sn), showOffs(sc.sp))
+	}
+	return l
 }
 
 func mk(mode string, b, i, span int, prods ...pspec) *script {
-	return &script{mode: mode, B: b, I: i, span: span, dd: 10, tol: 30, prods: prods}
+	return &script{mode: mode, B: b, I: i, span: span, dd: 10, tol: 30, prods: prods, since: -1}
+}
+
+// mkStart: AggregationLoop is (re)started `since` ms after the last block (via "last": a real block in the
+// store the new Manager is opened on) or after genesis time (via "genesis": nothing produced yet), and
+// NotifyNewTransactions is called sn[i] ms after the (re)start.
+func mkStart(mode string, b, i, span int, via string, since int, sn []int, prods ...pspec) *script {
+	sc := mk(mode, b, i, span, prods...)
+	sc.since, sc.via, sc.sn = since, via, sn
+	return sc
 }
 
 func pr(k, d int, offs ...int) pspec { return pspec{idx: k, dur: d, offs: offs} }
@@ -116,12 +138,19 @@ func finalize(sc *script) bool {
 	}
 	type pt struct{ k, o int }
 	var acc []pt
+	// at: the instant of an event scripted o ms after production k's start (k = -1: after the call of AggregationLoop)
+	at := func(x sim, k, o int) int {
+		if k < 0 {
+			return sc.since + o
+		}
+		return x.starts[k] + o
+	}
 	probeOK := func(k, o int) bool {
 		for _, x := range base {
 			if k >= len(x.starts) {
 				continue
 			}
-			t := x.starts[k] + o
+			t := at(x, k, o)
 			if t > sc.span-150 {
 				return false
 			}
@@ -135,7 +164,7 @@ func finalize(sc *script) bool {
 				}
 			}
 			for _, a := range acc {
-				if a.k < len(x.starts) && abs(t-(x.starts[a.k]+a.o)) < 2*sep+10 {
+				if a.k < len(x.starts) && abs(t-at(x, a.k, a.o)) < 2*sep+10 {
 					return false
 				}
 			}
@@ -143,6 +172,14 @@ func finalize(sc *script) bool {
 		return true
 	}
 	ref := base[0]
+	if sc.since >= 0 && len(ref.starts) > 0 && len(sc.sp) == 0 {
+		// probes on both sides of the FIRST production: they put the end of the start-up wait into the order of events
+		for _, o := range []int{ref.starts[0] - sc.since - 90, ref.starts[0] - sc.since + 90} {
+			if o >= sep+20 && probeOK(-1, o) {
+				acc = append(acc, pt{-1, o})
+			}
+		}
+	}
 	for k := 0; k+1 < len(ref.starts); k++ {
 		g := ref.starts[k+1] - ref.starts[k]
 		for _, o := range []int{g - 90, g + 90} {
@@ -152,6 +189,11 @@ func finalize(sc *script) bool {
 		}
 	}
 	for _, a := range acc {
+		if a.k < 0 {
+			sc.sp = append(sc.sp, a.o)
+			sort.Ints(sc.sp)
+			continue
+		}
 		sc.addProbe(a.k, a.o)
 	}
 	withP := finals(sc.cfg(), sc, sc.span)
@@ -219,6 +261,69 @@ func fixedScenarios() []*script {
 		mk("lazy", 200, 1000, 3600, pr(0, 10, 300), prR(1)),         // the block-timer production that serves the notification is refused (known finding: the wake-up is consumed)
 		mk("lazy", 200, 1000, 3800, pr(0, 10, 300), prR(1, 300)),    // … and a second notification after the refusal gets its block
 	}
+}
+
+// startScenarios: the loop is (re)started inside / after the block interval that follows the last block
+// (or genesis time), with 0, 1 or several notifications during the remaining wait.  Block intervals of
+// 500-600 ms: the remaining wait is 350-480 ms, a notification in its first half is > 200 ms away from
+// the instant the first block is due.
+func startScenarios() []*script {
+	return []*script{
+		mkStart("lazy", 500, 1500, 2300, "last", 120, []int{100}),                 // restart right after a block, ONE notification during the wait
+		mkStart("normal", 500, 1500, 1900, "last", 120, []int{100}),               // … normal mode: the notification changes nothing
+		mkStart("lazy", 600, 1500, 2500, "genesis", 150, []int{40, 200}),          // first start before genesis time + block interval, two notifications (one slot)
+		mkStart("normal", 600, 1500, 2100, "genesis", 120, nil),                   // no notification: the wait alone
+		mkStart("lazy", 500, 1200, 2400, "last", 150, nil),                        // lazy, no notification: first block at last + block interval, then the idle chain
+		mkStart("lazy", 500, 1500, 2500, "last", 700, []int{150}),                 // restarted later than one block interval after the last block: no wait
+		mkStart("lazy", 500, 1500, 2300, "last", 120, []int{530}),                 // control: the notification arrives after the wait
+		mkStart("normal", 700, 1500, 2500, "last", 100, []int{40, 170, 300}),      // burst during the wait, normal mode
+		mkStart("lazy", 600, 1500, 2700, "genesis", 100, []int{150}, pr(0, 250, 60)), // notified during the wait and again inside the first production
+	}
+}
+
+func randomStart(r *hx.Rng, soak bool) *script {
+	for try := 0; try < 60; try++ {
+		b := []int{400, 500, 600, 800}[r.Intn(4)]
+		if soak {
+			b = []int{1200, 1600, 2000}[r.Intn(3)]
+		}
+		mode, via := "lazy", "last"
+		if r.Chance(40) {
+			mode = "normal"
+		}
+		if r.Chance(35) {
+			via = "genesis"
+		}
+		i := b * []int{2, 3, 1}[r.Intn(3)]
+		since := 100 + r.Intn(b-340)
+		if r.Chance(10) {
+			since = b + 50 + r.Intn(200) // no wait
+		}
+		var sn []int
+		if room := b - since - 230; room > 40 {
+			o := 30 + r.Intn(60)
+			for j := r.Intn(5) % 4; j > 0 && o < room; j-- {
+				sn = append(sn, o)
+				o += 135 + r.Intn(80)
+			}
+		}
+		span := 3*b + 700
+		if span < 2*b+i+300 && i <= 1600 {
+			span = 2*b + i + 300
+		}
+		var prods []pspec
+		if r.Chance(40) {
+			d := b * (30 + r.Intn(40)) / 100
+			prods = append(prods, pr(0, d, 20+r.Intn(d-30)))
+		}
+		sc := mkStart(mode, b, i, span, via, since, sn, prods...)
+		if finalize(sc) {
+			return sc
+		}
+	}
+	sc := mkStart("lazy", 500, 1500, 2300, "last", 120, []int{100})
+	finalize(sc)
+	return sc
 }
 
 var ratios = [][2]int{{200, 1000}, {200, 500}, {200, 200}, {240, 840}, {300, 750}, {200, 600}, {400, 160}, {450, 180}, {220, 330}, {200, 800}}
@@ -356,6 +461,19 @@ func Gen(r *hx.Rng, tier string, w io.Writer) {
 	for i := 0; i < n; i++ {
 		scs = append(scs, randomScenario(r, i%3 == 2))
 	}
+	for _, sc := range startScenarios() {
+		if !finalize(sc) {
+			panic("c17: fixed start-up scenario is not stable under jitter: " + sc.line())
+		}
+		scs = append(scs, sc)
+	}
+	ns := 2
+	if tier == "thorough" {
+		ns = 12
+	}
+	for i := 0; i < ns; i++ {
+		scs = append(scs, randomStart(r, tier == "thorough" && i%4 == 3))
+	}
 	for _, sc := range scs {
 		fmt.Fprintln(w, "reset")
 		fmt.Fprintln(w, sc.line())
@@ -366,6 +484,8 @@ func Gen(r *hx.Rng, tier string, w io.Writer) {
 	fmt.Fprintln(w, "run mode=lazy B=0 I=1000 span=1000 dd=10 tol=30 jit=30 upto=5 script=-")
 	fmt.Fprintln(w, "run mode=lazy B=200 I=1000 span=1000 dd=10 tol=30 jit=30 upto=5 script=0:x:1")
 	fmt.Fprintln(w, "run mode=lazy B=200 I=1000 span=1000 dd=10 tol=30 jit=30 script=-")
+	fmt.Fprintln(w, "run mode=lazy B=500 I=1500 span=1000 dd=10 tol=30 jit=30 upto=5 script=- since=x via=last sn=- sp=-")
+	fmt.Fprintln(w, "run mode=lazy B=500 I=1500 span=1000 dd=10 tol=30 jit=30 upto=5 script=- since=100 via=sideways sn=- sp=-")
 	fmt.Fprintln(w, "produce now")
 }
 
@@ -374,7 +494,15 @@ func Gen(r *hx.Rng, tier string, w io.Writer) {
 type finding struct{ sig, what string }
 
 func parseRun(o hx.Op) (*script, bool) {
-	sc := &script{mode: o.Str("mode"), raw: o.Raw}
+	sc := &script{mode: o.Str("mode"), raw: o.Raw, since: -1}
+	if o.Has("since") {
+		n, ok := parseNat(o.Str("since"))
+		sc.via = o.Str("via")
+		if !ok || n > 30000 || (sc.via != "genesis" && sc.via != "last") {
+			return nil, false
+		}
+		sc.since, sc.sn, sc.sp = n, parseOffs(o.Str("sn")), parseOffs(o.Str("sp"))
+	}
 	sc.B, _ = parseNat(o.Str("B"))
 	sc.I, _ = parseNat(o.Str("I"))
 	sc.span, _ = parseNat(o.Str("span"))
@@ -411,13 +539,13 @@ func matchRun(tol float64, starts []float64, stopMs float64, r []int) (bool, str
 		return false, fmt.Sprintf("%d productions, the model admits at most %d", n, len(r))
 	}
 	if n == 0 {
-		if len(r) > 0 && stopMs > 3*tol {
-			return false, "no production at all, the model says the first one starts at 0"
+		if len(r) > 0 && stopMs > float64(r[0])+3*tol {
+			return false, fmt.Sprintf("no production at all, the model says the first one starts at %d", r[0])
 		}
 		return true, ""
 	}
-	if starts[0] > 3*tol {
-		return false, fmt.Sprintf("first production %.0f ms after the loop started, the model says 0", starts[0])
+	if starts[0] > float64(r[0])+3*tol || starts[0] < float64(r[0])-tol {
+		return false, fmt.Sprintf("first production at %.0f ms, the model says %d", starts[0], r[0])
 	}
 	for i := 1; i < n; i++ {
 		gm := starts[i] - starts[i-1]
@@ -515,7 +643,13 @@ func evaluate(sc *script, ms measurement, pred prediction) []finding {
 	//     refused) within one block interval after max(notification, end of the production in flight); by
 	//     the letter of the property: within one block interval after the notification
 	if lazy {
-		for _, nf := range ms.notifs {
+		notifs := ms.notifs
+		for _, nf := range ms.bootNotifs {
+			if n >= 1 && nf.at > starts[0] { // scripted relative to the call of the loop, arrived after the first production started
+				notifs = append(append([]notifRec(nil), notifs...), nf)
+			}
+		}
+		for _, nf := range notifs {
 			base, after, inflight := nf.at, -1, false
 			skip := false
 			for k := 0; k < n; k++ {
@@ -585,6 +719,49 @@ func evaluate(sc *script, ms measurement, pred prediction) []finding {
 					add("C17/lost-wakeup/notification-during-production", fmt.Sprintf("NotifyNewTransactions at %.0f ms, during production %d (lasted %.0f ms, ended %.0f ms): the next block is production %d at %.0f ms, started from select case %s, not by the notification", nf.at, after, dur, ends[after], kn, starts[kn], cause))
 				default:
 					add(sigLateNotify, fmt.Sprintf("NotifyNewTransactions at %.0f ms, during production %d which lasted %.0f ms (block interval %d ms): the block-timer production %d started at %.0f ms, later than %.0f ms", nf.at, after, dur, sc.B, kn, starts[kn], nf.at+B+tol))
+				}
+			}
+		}
+	}
+
+	// (S) the (re)start of the loop (scenarios with since=; the clock starts at the time of the last block /
+	//     genesis time)
+	if sc.since >= 0 {
+		// (S1) rate across the (re)start: the first block no earlier than one block interval after the last
+		//      block (after genesis time), whatever was notified in between — both modes
+		if n >= 1 && starts[0] < B-rateTol {
+			sig, cause := sigEarlyStartOther, "no NotifyNewTransactions call before it"
+			for _, nf := range ms.bootNotifs {
+				if nf.at <= starts[0]+rateTol {
+					sig, cause = sigEarlyStartNotif, fmt.Sprintf("NotifyNewTransactions was called at %.0f ms, during the start-up wait", nf.at)
+					break
+				}
+			}
+			what := "the last block before the restart"
+			if sc.via == "genesis" {
+				what = "genesis time (nothing produced yet)"
+			}
+			add(sig, fmt.Sprintf("%s mode: AggregationLoop was called %.0f ms after %s and started its first production at %.0f ms, earlier than one block interval (%d ms) after it; %s", sc.mode, ms.loopCalled, what, starts[0], sc.B, cause))
+		}
+		// (S2) lazy mode: a notification during the wait is not lost — a block starts after it, within one
+		//      block interval of the end of the wait
+		if lazy {
+			for _, nf := range ms.bootNotifs {
+				if n >= 1 && nf.at > starts[0] {
+					continue // after the first production started: judged like any other notification, below
+				}
+				deadline := math.Max(nf.at, math.Max(B, ms.loopCalled)) + B + tol
+				if deadline > ms.stopMs-sep {
+					continue
+				}
+				found := false
+				for k := 0; k < n; k++ {
+					if starts[k] >= nf.at && starts[k] <= deadline && !sc.refusedOf(k) {
+						found = true
+					}
+				}
+				if !found {
+					add(sigLostStartNotif, fmt.Sprintf("NotifyNewTransactions at %.0f ms, during the start-up wait of AggregationLoop (called at %.0f ms): no block started between the call and %.0f ms", nf.at, ms.loopCalled, deadline))
 				}
 			}
 		}
@@ -687,7 +864,7 @@ func knownSig(sig string) bool {
 // shows it is a finding.  Everything else compares a measured time with a threshold and needs
 // showsNeeded counted attempts.
 func logical(sig string) bool {
-	return sig == sigOrder || strings.HasPrefix(sig, "C17/lost-wakeup/") || strings.HasPrefix(sig, "C17/panic/") ||
+	return sig == sigOrder || strings.HasPrefix(sig, "C17/rate/first-block-after-start-too-early/") || strings.HasPrefix(sig, "C17/lost-wakeup/") || strings.HasPrefix(sig, "C17/panic/") ||
 		strings.HasPrefix(sig, "C17/loop/") || strings.HasPrefix(sig, "C17/setup/")
 }
 
@@ -838,6 +1015,20 @@ func Run(c *hx.Ctx) {
 				c.Hit("ratio/idle=block")
 			default:
 				c.Hit("ratio/idle>block")
+			}
+			if sc.since >= 0 {
+				c.Hit("startup/via-" + sc.via)
+				if sc.since < sc.B {
+					during := 0
+					for _, o := range sc.sn {
+						if sc.since+o < sc.B {
+							during++
+						}
+					}
+					c.Hit(fmt.Sprintf("startup/wait: %d notification(s) during it", during))
+				} else {
+					c.Hit("startup/no-wait: later than one block interval after the last block")
+				}
 			}
 			if len(j.pred.outs) > 1 {
 				c.Hit("outcome/near-tie: real order must be a member of the admissible set")
